@@ -15,6 +15,7 @@ func init() {
 		Title:    "Session lifecycle commands take effect exactly as documented",
 		Packages: []string{syncPkg},
 		Explanation: "(R1, lockset) controller.disabled/cancel/flushRequests/done are written only with lifecycleLock held — including through the lifecycleLockHeld-parameter idiom, whose callers pass true exactly when they hold the lock; resume, halt and reset never release the lifecycle lock explicitly between their checks and their effects (lock continuity: only the deferred unlock); " +
+			"(R5 addition) every successful way through halt did its mode's work — pause: Paused=true persisted; shutdown: controller disabled; terminate: controller disabled and both files removed — whatever state the session was in (no «already paused, nothing to do» exit); " +
 			"(R2) halt cancels the running loop and waits for its done channel before it persists anything, disables the controller or removes files, on every path where a loop exists; " +
 			"(R3) pause and resume store Paused and save the session file, and report success only if that save succeeded; " +
 			"(R4) the synchronization loop is started (go controller.run) only for sessions that are not paused, at creation and at load; " +
